@@ -496,6 +496,80 @@ pub fn step(st: &mut DualState, t: &[&str]) -> Option<String> {
             let a = st.vals.get(&i.parse().ok()?)?;
             guarded(|| un_op(op, a).map(|v| fmt_num(&v)).unwrap_or("bad-op".into()), "panic")
         }
+        ["neut", which, i] => {
+            // the library's OWN zero / one elements (`Zero::zero`, `One::one`) combined with a stored number of the
+            // same type: zero + x, x + zero, one * x, x * one; `n..` forms go through the `Number` container
+            use num_traits::{One, Zero};
+            let a = st.vals.get(&i.parse().ok()?)?.clone();
+            let which = which.to_string();
+            guarded(
+                || {
+                    let typed = |z: Number, x: Number, zero_left: bool, mul: bool| -> Number {
+                        match (mul, zero_left) {
+                            (false, true) => z + x,
+                            (false, false) => x + z,
+                            (true, true) => z * x,
+                            (true, false) => x * z,
+                        }
+                    };
+                    let (mul, left, container) = match which.as_str() {
+                        "za" => (false, true, false),
+                        "az" => (false, false, false),
+                        "om" => (true, true, false),
+                        "mo" => (true, false, false),
+                        "nza" => (false, true, true),
+                        "naz" => (false, false, true),
+                        "nom" => (true, true, true),
+                        "nmo" => (true, false, true),
+                        _ => return "bad-op".to_string(),
+                    };
+                    let e: Number = if container {
+                        if mul { Number::one() } else { Number::zero() }
+                    } else {
+                        match (&a, mul) {
+                            (Number::F64(_), false) => Number::F64(f64::zero()),
+                            (Number::F64(_), true) => Number::F64(f64::one()),
+                            (Number::Dual(_), false) => Number::Dual(Dual::zero()),
+                            (Number::Dual(_), true) => Number::Dual(Dual::one()),
+                            (Number::Dual2(_), false) => Number::Dual2(Dual2::zero()),
+                            (Number::Dual2(_), true) => Number::Dual2(Dual2::one()),
+                        }
+                    };
+                    fmt_num(&typed(e, a.clone(), left, mul))
+                },
+                "panic",
+            )
+        }
+        ["iszero", i] => {
+            use num_traits::Zero;
+            let a = st.vals.get(&i.parse().ok()?)?.clone();
+            guarded(
+                || {
+                    let typed = match &a {
+                        Number::F64(f) => f.is_zero(),
+                        Number::Dual(d) => d.is_zero(),
+                        Number::Dual2(d) => d.is_zero(),
+                    };
+                    format!("{} {}", typed as u8, a.is_zero() as u8)
+                },
+                "panic",
+            )
+        }
+        ["isone", i] => {
+            use num_traits::One;
+            let a = st.vals.get(&i.parse().ok()?)?.clone();
+            guarded(
+                || {
+                    let typed = match &a {
+                        Number::F64(f) => f.is_one(),
+                        Number::Dual(d) => d.is_one(),
+                        Number::Dual2(d) => d.is_one(),
+                    };
+                    format!("{}", typed as u8)
+                },
+                "panic",
+            )
+        }
         ["powc", i, p] => {
             let i: usize = i.parse().ok()?;
             let a = st.vals.get(&i)?;
@@ -1073,6 +1147,14 @@ pub fn gen_c19<W: Write>(out: &mut W, thorough: bool, seed: u64) {
         writeln!(out, "bin add 1 3").unwrap();
         writeln!(out, "bin mul 4 1").unwrap();
         writeln!(out, "bin mul 1 4").unwrap();
+        // the library's own zero and one elements, typed and through the Number container; its zero / one tests
+        for w in ["za", "az", "om", "mo", "nza", "naz", "nom", "nmo"] {
+            writeln!(out, "neut {} 1", w).unwrap();
+        }
+        for i in [1, 2, 3, 4] {
+            writeln!(out, "iszero {}", i).unwrap();
+            writeln!(out, "isone {}", i).unwrap();
+        }
         // sums of length 0..8
         let len = r.below(9) as usize;
         let mut ids = Vec::new();
